@@ -65,12 +65,46 @@ package main
 // The storage engine cannot return the gateway's own (unexported) sentinel errors.
 //@ func github.com/feichai0017/NoKV::(*Txn).Get
 //@   trusted
-//@   ensures [not-a-gateway-sentinel] rerr != errOverflow && rerr != errNotInteger
+//@   ensures [not-a-gateway-sentinel] rerr != errOverflow && rerr != errNotInteger && !erris(rerr, errConditionNotMet)
 //@   modifies nothing
+//@ ghost var setCalls Int
+//@ ghost var lastSetExpires uint64
 //@ func github.com/feichai0017/NoKV::(*Txn).SetEntry
 //@   trusted
-//@   ensures [not-a-gateway-sentinel] result != errOverflow && result != errNotInteger
+//@   ensures [not-a-gateway-sentinel] result != errOverflow && result != errNotInteger && !erris(result, errConditionNotMet)
+//@   ghost setCalls = setCalls + 1
+//@   ghost lastSetExpires = e.ExpiresAt
 //@   modifies nothing
+
+// DB.Update runs the callback inside a transaction: its body is inlined so that the
+// callback (a closure of the caller) is verified together with its caller.
+//@ func github.com/feichai0017/NoKV::(*DB).Update
+//@   inline
+//@ func github.com/feichai0017/NoKV::(*DB).IsClosed
+//@   trusted
+//@   modifies nothing
+//@ func github.com/feichai0017/NoKV::(*DB).NewTransaction
+//@   trusted
+//@   ensures [non-nil] result != nil
+//@   modifies nothing
+//@ func github.com/feichai0017/NoKV::(*Txn).Discard
+//@   trusted
+//@   modifies nothing
+//@ func github.com/feichai0017/NoKV::(*Txn).Commit
+//@   trusted
+//@   ensures [not-a-gateway-sentinel] !erris(result, errConditionNotMet)
+//@   modifies nothing
+//@ func github.com/feichai0017/NoKV/kv::NewEntry
+//@   trusted
+//@   ensures [non-nil] result != nil
+//@   modifies nothing
+
+// C29 SET: with NX/XX as without, the entry handed to the transaction carries the
+// requested expiry (EX/PX/EXAT/PXAT are not silently dropped).
+//@ func (*embeddedBackend).Set
+//@   property C29
+//@   ensures [stored-entry-carries-expiry] result1 == nil && result && args.ExpireAt > 0 ==> setCalls > old(setCalls) && lastSetExpires == args.ExpireAt
+//@   ensures [condition-not-met-stores-nothing] result1 == errConditionNotMet ==> setCalls == old(setCalls)
 
 //@ func (*embeddedBackend).IncrBy$1
 //@   property C29
